@@ -2,7 +2,7 @@
 From Coq Require Import List ZArith NArith Bool.
 From Scalibr Require Import Semantic.Cmp Semantic.Bytes Semantic.Cases.
 From Scalibr Require Import Semantic.Semver Semantic.Nuget Semantic.Cran Semantic.Rubygems Semantic.Debian Semantic.Redhat.
-From Scalibr Require Import Semantic.Pypi Semantic.Packagist Semantic.Alpine Semantic.Maven.
+From Scalibr Require Import Semantic.Pypi Semantic.PypiParse Semantic.Packagist Semantic.Alpine Semantic.Maven.
 Import ListNotations.
 
 Definition all_true {V} (_ : V) : bool := true.
@@ -42,7 +42,7 @@ Definition eco_redhat : ecosys redhat := {|
 
 (* structure-level models: the regex front ends are not modelled, structures come from the hook *)
 Definition eco_pypi : ecosys pypi := {|
-  ec_parse := None; ec_cmp := cmp_pypi; ec_valid := valid_pypi;
+  ec_parse := Some parse_pypi; ec_cmp := cmp_pypi; ec_valid := valid_pypi;
   ec_rel := all_true3;
   ec_total_dom := valid_pypi; ec_eqb := pypi_eqb |}.
 
